@@ -155,9 +155,17 @@ func VerifH04b() {
 		conn.failWriteAt = vChoose(9)
 		vReach("write-failure")
 	}
+	eventsAtFailure := -1
+	conn.onWriteFailure = func() { eventsAtFailure = len(w.events) }
 	err := w.srv.serve(context.Background(), conn)
 	vAssert("serve-returns-with-error-or-eof", err != nil)
 	vAssert("connection-closed", conn.closed >= 1)
+	if eventsAtFailure >= 0 {
+		// once a write has failed the connection is done: no parser or statement
+		// function is started for it any more
+		vAssert("no-callback-starts-after-the-transport-failed", len(w.events) == eventsAtFailure)
+		vReach("write-failed-during-the-session")
+	}
 	vAssert("wire-wellformed-prefix", vWireOK(conn.out))
 	if mode == 0 {
 		vReach("input-ended")
